@@ -29,10 +29,14 @@ LEVEL_TEXT = ("Lean, for EVERY LR table, text and state: Unit.parse/Quantity.par
               "graph exactly as they were, the unit table only gaining interned anonymous units (parse_frame_*, parse_graph_*). Proved by "
               "two generic inductions over the LR driver (Proofs/ParseGen: a relation every semantic action respects is respected by the "
               "whole run; an error is parseError, fuel, or one an action produced) and a case analysis of every QuantityTransformer "
-              "callback (Proofs/ParseFrame). Tied to the code by differential execution of parse on generated texts and an implementation "
+              "callback (Proofs/ParseFrame). In every state satisfying the C01 invariant and C02's canonical table - hence in every state "
+              "reachable from the imported library (reachable_good) - parsing a text and parsing it again gives the same outcome, the "
+              "same object or the same exception, and the second parse changes nothing; more generally the second parse may happen "
+              "after any further interning (parse_idempotent_unit/_quantity, parse_repeatable: a third induction over the LR driver, "
+              "`every semantic action is stable under extension of the intern table', Proofs/ParseStable + Proofs/ParseIdem). Tied to "
+              "the code by differential execution of parse on generated texts and an implementation "
               "oracle for exception types, idempotence, registry snapshots and magnitude types.")
-LEVEL_NOTE = ("Idempotence of a repeated parse and the magnitude-type clause are decided by the oracle and the correspondence only (no "
-              "theorem yet). The model declines products of prefixes with different bases and float literals with |exponent| > 400; there "
+LEVEL_NOTE = ("Magnitude type: proved that an accepted quantity never carries a Decimal and that its unit exists (parse_magnitude_type); that an integer literal gives an int and a float literal a float is decided by the oracle and the correspondence. The model declines products of prefixes with different bases; there "
               "the implementation is only checked by the oracle. Trusted: Lean kernel; Model/LALR.lean as a model of the embedded lark "
               "engine; the hand-written terminal matchers (see C16).")
 TECHNIQUE = "Lean 4 induction over the LR driver (error closure and registry frame for every table/text/state) + differential correspondence + implementation oracle"
@@ -42,8 +46,12 @@ THEOREMS = [
     "Measured.C17.parse_total_unit", "Measured.C17.parse_total_quantity",
     "Measured.C17.parse_frame_unit", "Measured.C17.parse_frame_quantity",
     "Measured.C17.parse_graph_unit", "Measured.C17.parse_graph_quantity",
+    "Measured.parseWith_stable", "Measured.parseWith_idempotent", "Measured.transformerAct_ok",
+    "Measured.C17.parse_idempotent_unit", "Measured.C17.parse_idempotent_quantity", "Measured.C17.parse_repeatable", "Measured.C17.parse_magnitude_type",
+    "Measured.Obligations.reachable_good", "Measured.Obligations.reachable_parse_idempotent_unit",
+    "Measured.Obligations.reachable_parse_idempotent_quantity",
 ]
-LEAN_TARGETS = ["Props.C17"]
+LEAN_TARGETS = ["Props.C17", "Obligations.C17"]
 QUICK = {"chunks": 8, "ops": 1500}
 THOROUGH = {"chunks": 16, "ops": 12000}
 RULE = ("(entry point, text); non-trivial = the text reaches the transformer (at least one symbol resolved) or is rejected after the "
